@@ -27,7 +27,8 @@ CONSTANTS
   DEV_AbsInside,         \* an absolute link target inside dst is accepted (candidate 3)
   DEV_DirThroughLink,    \* a directory entry is applied through a link already at its path
   DEV_WalkRawName,       \* the symlink walk runs over the raw entry name (a missing component before ".." ends it too early)
-  DEV_LinkRawName        \* link targets validated from the raw entry name ("/a" taken as absolute)
+  DEV_LinkRawName,       \* link targets validated from the raw entry name ("/a" taken as absolute)
+  DEV_LinkOneSlash       \* only one leading slash stripped before validating ("//a" still taken as absolute; fix 12b740b)
 
 \* entry: [name : raw tokens, k : "f"|"d"|"l"|"g"|"p"|"h", m, t, c, tgt : raw tokens]
 Representable == {"f", "d", "l"}
@@ -39,6 +40,9 @@ Contains(p, q) == IF DEV_StrPrefix THEN StrHasPrefix(SP, p, q) ELSE SegHasPrefix
 \* L1: NewUnpackInfo
 StripSlash(name) == IF IsAbsT(name) THEN Tail(name) ELSE name
 EntryPath(name) == JoinClean(Dst, StripSlash(name))
+RECURSIVE StripSlashes(_)
+StripSlashes(name) == IF IsAbsT(name) THEN StripSlashes(Tail(name)) ELSE name
+LinkName(name0) == IF DEV_LinkRawName THEN name0 ELSE IF DEV_LinkOneSlash THEN StripSlash(name0) ELSE StripSlashes(name0)
 
 \* the Lstat walk over strings.Split(name, "/")[0 .. n-2];
 \* "clear" | "link" | "error" (an Lstat failure that is not NotExist)
@@ -56,12 +60,12 @@ AllowListed(absTarget) == \E a \in Allow : Under(absTarget, a)
 
 \* Packer.validSymlink(dst, header.Name, header.Linkname): note the *raw* name
 LinkAbsTarget(name0, tgt) ==
-  LET name == IF DEV_LinkRawName THEN name0 ELSE StripSlash(name0)
+  LET name == LinkName(name0)
       absPath == IF IsAbsT(name) THEN JoinClean(Root, name) ELSE JoinClean(Dst, name)
   IN IF IsAbsT(tgt) THEN JoinClean(Root, tgt) ELSE JoinClean(Parent(absPath), tgt)
 \* a relative target must stay inside dst without climbing above it (fix d958749)
 LinkLocal(name0, tgt) ==
-  LET name == IF DEV_LinkRawName THEN name0 ELSE StripSlash(name0)
+  LET name == LinkName(name0)
       absPath == IF IsAbsT(name) THEN JoinClean(Root, name) ELSE JoinClean(Dst, name)
       dir == Parent(absPath)
   IN Under(dir, Dst) /\ Under(JoinClean(<<"#root">> \o SubSeq(dir, Len(Dst) + 1, Len(dir)), tgt), <<"#root">>)
@@ -218,6 +222,6 @@ Verdict(h, s, f, l1) ==
                 LET cl == { KF04Class(f, p) : p \in w04 } IN
                 IF "" \in cl THEN "" ELSE IF Cardinality(cl) = 1 THEN CHOOSE x \in cl : TRUE
                 ELSE "KF-C04-absolute-target-inside+KF-C04-lexical-vs-physical",
-       kf15 |-> "", kf12 |-> "",
+       kf15 |-> "", kf12 |-> "", c19 |-> s # "panic", w19 |-> {}, kf19 |-> "",
        cons |-> cons ]
 =============================================================================
